@@ -18,6 +18,12 @@ type latchObservation struct {
 	LifeOK bool
 }
 
+var decoderType = map[string]string{
+	"nt": "encoding/ntriples.Decoder", "nq": "encoding/nquads.Decoder", "ttl": "encoding/turtle.Decoder", "trig": "encoding/trig.Decoder",
+	"rdfjson": "encoding/rdfjson.Decoder", "rdfxml": "encoding/rdfxml.Decoder", "jsonld": "encoding/jsonld.Decoder", "rdfa": "encoding/htmlrdfa.Decoder",
+	"microdata": "encoding/htmlmicrodata.Decoder", "htmljsonld": "encoding/htmljsonld.Decoder", "html": "encoding/html/htmldefaults.Decoder",
+}
+
 func (e *engine) latchCorrespondence(driver string) {
 	if len(e.latchObs) == 0 {
 		return
@@ -28,7 +34,7 @@ func (e *engine) latchCorrespondence(driver string) {
 		if n > 50 {
 			n = 50
 		}
-		lines = append(lines, fmt.Sprintf("latch.run %s %d %s 3", o.Format, n, b01(o.Err)))
+		lines = append(lines, fmt.Sprintf("latch.run %s %d %s 3", decoderType[o.Format], n, b01(o.Err)))
 	}
 	res, err := vh.Driver{Path: driver}.Run(lines)
 	if err != nil {
